@@ -181,7 +181,9 @@ def main():
                               ("grow", [arg("i32", 0xFFFFFFFF)]), ("fill", [arg("i32", 0), arg("i32", 1), arg("i32", 0)])]]})
     gst = {}
     items += wasmgen.programs("mem", 60 if tier == "quick" else 1500, SEED, args_per_prog=4, stats=gst)
-    builds = [{"name": "gcc-O1", "cc": "gcc", "cflags": ("-O1",)}]
+    # the second build keeps the data segments in an external blob (memory.init must find its bytes there)
+    builds = [{"name": "gcc-O1", "cc": "gcc", "cflags": ("-O1",)},
+              {"name": "gcc-O1-gnu-ld", "cc": "gcc", "cflags": ("-O1",), "w2c2_opts": ("-m", "-d", "gnu-ld")}]
     if tier != "quick":
         builds.append({"name": "clang-O2", "cc": "clang", "cflags": ("-O2",)})
     st, exp = machine.replay(v, items, builds, sigfn=sig)
